@@ -363,6 +363,36 @@ func (x *Exec) applyContract(fr *Frame, st *State, ct *FuncContract, callee *ssa
 		}
 		return ctx
 	}
+	// ghost arguments: values the caller passes for the callee's ghost variables
+	ghostArgs := map[string]*binding{}
+	var ghostOrder []scopeVar
+	if fr.ct != nil && fr.inlineTag == "" {
+		for k, a := range fr.ct.Ats {
+			if a.Site != "before:"+site || a.Kind != "pass" {
+				continue
+			}
+			fr.atUsed()[k] = true
+			parts := strings.SplitN(a.Clause.Text, "=", 2)
+			if len(parts) != 2 {
+				x.eng.fatalf("%s: pass name = expr", a.Clause.Src)
+			}
+			gname := strings.TrimSpace(parts[0])
+			cctx := x.ownCtx(fr, st, true)
+			cctx.src = a.Clause.Src
+			t, ty := cctx.evalText(strings.TrimSpace(parts[1]))
+			ghostArgs[gname] = &binding{val: Val{T: t}, typ: ty}
+			ghostOrder = append(ghostOrder, scopeVar{gname, ty})
+		}
+	}
+	mk0 := mk
+	mk = func(cur, old *State) *EvalCtx {
+		c := mk0(cur, old)
+		for _, sv := range ghostOrder {
+			c.vars[sv.name] = ghostArgs[sv.name]
+			c.order = append(c.order, sv)
+		}
+		return c
+	}
 	// preconditions
 	pre := st.clone()
 	ctx := mk(st, pre)
@@ -1103,7 +1133,10 @@ func (x *Exec) atSite(fr *Frame, st *State, kind string, ord int, vals map[strin
 	}
 	for k, at := range fr.ct.Ats {
 		if at.Site != site {
-			continue
+			// wildcard ordinal: kind#*
+			if !(strings.HasSuffix(at.Site, "#*") && strings.HasPrefix(site, strings.TrimSuffix(at.Site, "*")) && !strings.Contains(strings.TrimPrefix(site, strings.TrimSuffix(at.Site, "*")), "#")) {
+				continue
+			}
 		}
 		fr.atUsed()[k] = true
 		ctx := x.ownCtx(fr, st, true)
@@ -1133,7 +1166,21 @@ func (x *Exec) atSite(fr *Frame, st *State, kind string, ord int, vals map[strin
 			st.ghost["local:"+g] = x.vc.define("ghost_"+g, srt, t)
 		case "use":
 			x.useLemma(fr, st, at.Clause)
-		case "pure":
+		case "pure", "pass":
+		case "havoc":
+			// interference: another thread may have changed this location (e.g. before a lock is acquired)
+			g := strings.TrimSpace(at.Clause.Text)
+			if srt, ok := fr.ghostLoc[g]; ok {
+				st.ghost["local:"+g] = x.vc.freshConst("hv_ghost_"+g, srt)
+				break
+			}
+			lv := ctx.lvalue(g)
+			if lv.kind != "field" {
+				x.eng.fatalf("%s: havoc expects a field or a ghost variable", at.Clause.Src)
+			}
+			f := x.vc.freshConst("hv_f", x.vc.sortOf(lv.typ))
+			x.vc.assumeTyped(st, f, lv.typ)
+			x.store(fr, st, &Loc{kind: lHeap, key: lv.key, ptr: lv.ptr, rootT: lv.rootT, typ: lv.typ, path: lv.path}, f)
 		default:
 			x.eng.fatalf("%s: unknown at-kind %q", at.Clause.Src, at.Kind)
 		}
